@@ -101,13 +101,13 @@ def _ctor_args(cfg, names):
 
 def new_sop(cfg, opt):
     a, k = _ctor_args(cfg, [("steps", "steps"), ("patience", "patience"), ("decreasing", "d"), ("verbose", "verbose")])
-    return pp().optim.scheduler.StopOnPlateau(opt, *a, **k)
+    return U.controller_class("sop", cfg.get("klass"))(opt, *a, **k)
 
 
 def new_rtb(cfg):
     a, k = _ctor_args(cfg, [("steps", "steps"), ("patience", "patience"), ("decreasing", "d"), ("tol", "tol"),
                             ("verbose", "verbose")])
-    return pp().utils.ReduceToBason(*a, **k)
+    return U.controller_class("rtb", cfg.get("klass"))(*a, **k)
 
 
 def draw_style(rng, p_verbose=0.3):
@@ -210,23 +210,30 @@ def run_graph(ctx: Ctx, kind: str, cfgs, depth: int):
         dtype = rng.choice(["float64", "float32"])
         shape = rng.choice([(2,), (1, 2), (2, 1)])
         verbose, style = draw_style(rng)
+        klass = rng.choice(KLASSES)
+        offset = rng.choice([0, 0, 0, 2 ** 24, 2 ** 24 + 1, 2 ** 53 + 1, 1700000000])
         if kind == "sop":
             d = rng.choice([0.125, 1.0, 2.0 ** -10])
-            cfg = {"steps": steps, "patience": patience, "d": d, "verbose": verbose, "style": style}
+            cfg = {"steps": steps, "patience": patience, "d": d, "verbose": verbose, "style": style, "klass": klass, "offset": offset}
             opt = FakeOpt(has_reject)
             ctl = guarded(ctx, dict(cfg, kind="graph", ctl="sop"), new_sop, cfg, opt)
             nlet = 6
         else:
-            cfg = {"steps": steps, "patience": patience, "d": 1.0, "tol": 1.0, "verbose": verbose, "style": style}
+            cfg = {"steps": steps, "patience": patience, "d": 1.0, "tol": 1.0, "verbose": verbose, "style": style, "klass": klass, "offset": offset}
             ctl = guarded(ctx, dict(cfg, kind="graph", ctl="rtb"), new_rtb, cfg)
             nlet = 7  # + reset
         if ctl is None:
             continue
+        if cfg.get("offset"):
+            # counters beyond 2^24 / 2^53 (exact in python ints, not in float32 / float64): start the exploration from an
+            # injected state whose counters sit just below a budget / patience of that magnitude
+            ctl.steps, ctl.patience_count = cfg["offset"], cfg["offset"] - 1
+            ctl.max_steps, ctl.patience = cfg["offset"] + steps, cfg["offset"] - 1 + patience
         init_key = key_of(ctl, kind)
         frontier = {init_key: U.snap(ctl)}
         seen = {init_key}
         pairs, info = [], []
-        for t in range(depth):
+        for t in range(min(depth, 7) if cfg.get("offset") else depth):
             new = {}
             for k0, sv in frontier.items():
                 for letter in range(nlet):
@@ -235,7 +242,7 @@ def run_graph(ctx: Ctx, kind: str, cfgs, depth: int):
                     variant = rng.randrange(12)
                     case = {"kind": "graph", "ctl": kind, "steps": steps, "patience": patience, "before": before,
                             "letter": letter, "variant": variant, "has_reject": has_reject, "as_tensor": as_tensor,
-                            "dtype": dtype, "shape": list(shape), "d": cfg["d"], "verbose": verbose, "style": style,
+                            "dtype": dtype, "shape": list(shape), "d": cfg["d"], "verbose": verbose, "style": style, "klass": klass, "offset": offset,
                             "last_inf": kind == "rtb" and bool(torch.isinf(ctl.last).all())}
                     if not graph_transition(ctx, ctl, case, pairs, info, opt if kind == "sop" else None):
                         continue
@@ -250,11 +257,13 @@ def run_graph(ctx: Ctx, kind: str, cfgs, depth: int):
         ctx.count(f"graph.{kind}.transitions", len(info))
         ctx.note_case(("graph", kind, steps, patience), True)
         if pairs:
-            lines.append(f"c20.steps {kind} {steps} {patience} " + " ".join(f"{b} {o}" for b, o in pairs))
+            eff = (offset + steps, offset - 1 + patience) if offset else (steps, patience)
+            lines.append(f"c20.steps {kind} {eff[0]} {eff[1]} " + " ".join(f"{b} {o}" for b, o in pairs))
             metas.append([i for i in info if i[0] == "step"])
         for i in info:
             if i[0] == "reset":
-                lines.append(f"c20.trace rtb {steps} {patience} {i[1]['before']} R")
+                eff = (offset + steps, offset - 1 + patience) if offset else (steps, patience)
+                lines.append(f"c20.trace rtb {eff[0]} {eff[1]} {i[1]['before']} R")
                 metas.append([i])
     reps = ctx.driver.run(lines)
     for rep, ms in zip(reps, metas):
@@ -316,6 +325,13 @@ def graph_transition(ctx, ctl, case, pairs, info, opt) -> bool:
         ctx.fail(case, f"counter-steps: steps {bs} -> {a_s}")
     if a_pc != (bpc + 1 if obs[0] else 0):
         ctx.fail(case, f"counter-patience: patience_count {bpc} -> {a_pc} on nodec={obs[0]}")
+    # the documented causes for this one step: budget reached, patience reached, rejection / below tol
+    budget = (case.get("offset") or 0) + case["steps"] if case.get("offset") else case["steps"]
+    pat = (case["offset"] - 1 + case["patience"]) if case.get("offset") else case["patience"]
+    want = bcont and not (bs + 1 >= budget or (bpc + 1 if obs[0] else 0) >= pat or (obs[2] if kind == "sop" else obs[1]))
+    if a_cont != want:
+        ctx.fail(case, f"continual: {kind}(steps={budget}, patience={pat}) from (steps, patience_count, continual)={(bs, bpc, bcont)} on "
+                       f"(nodec, below, rej)={obs}: continual()={a_cont}, the documented causes give {want}")
     return True
 
 
@@ -330,6 +346,7 @@ def run_trie(ctx: Ctx, kind: str, cfgs, L: int):
                 "dtype": rng.choice(["float64", "float32"]), "shape": list(rng.choice([(2,), (1, 2), (2, 1)])),
                 "vseed": rng.randrange(1 << 30)}
         plan["verbose"], plan["style"] = draw_style(rng)
+        plan["klass"] = rng.choice(KLASSES)
         plans.append(plan)
     lines = []
     for p in plans:
@@ -359,11 +376,11 @@ def walk_trie(ctx: Ctx, p, model, only_word=None):
     if kind == "sop":
         opt = FakeOpt(p["has_reject"])
         ctl = new_sop({"steps": steps, "patience": patience, "d": p["d"], "verbose": p.get("verbose", False),
-                       "style": p.get("style", "kw")}, opt)
+                       "style": p.get("style", "kw"), "klass": p.get("klass")}, opt)
     else:
         opt = None
         ctl = new_rtb({"steps": steps, "patience": patience, "d": 1.0, "tol": 1.0, "verbose": p.get("verbose", False),
-                       "style": p.get("style", "kw")})
+                       "style": p.get("style", "kw"), "klass": p.get("klass")})
     idx = [0]
     nodes = [0]
     bad = [0]
@@ -485,18 +502,21 @@ def gen_value(rng, l, D, TOL, dtype, is_int, extreme=False):
 
 SHAPES = [[1], [2], [3], [4], [2, 2], [1, 3], [3, 1], [2, 1, 2], [5], [3, 2], [7], [3, 3], [1, 1], [2, 3], [3, 1, 1], [0], [11]]
 LAYOUTS = ["fresh", "fresh", "fresh", "slice", "strided", "expanded"]
-STATE_KEYS = {"steps", "patience_count", "_continual", "last"}
+STATE_KEYS = {"steps", "patience_count", "_continual", "last", "seen"}     # "seen": counter of the user subclass
+KLASSES = ["lib", "lib", "sub", "sub_step"]
 
 
 GRADS = ["plain", "plain", "requires_grad", "no_grad", "inference"]
 
 
-def draw_segcfg(rng, allow_int=True):
+def draw_segcfg(rng, allow_int=True, dd=None):
     """kind of object handed to step(): python float / int, numpy float64 (a float subclass), 0-d tensor, batched
     tensor, nn.Parameter (a Tensor subclass); and the autograd mode the call is made in"""
-    vkind = rng.choice(["pyfloat", "np64", "t0d", "t0d", "batch", "batch", "batch", "param"] + (["pyint"] if allow_int else []))
-    dtype = "float32" if vkind in ("pyfloat", "pyint") else ("float64" if vkind == "np64" else rng.choice(["float64", "float32"]))
-    shape = rng.choice(SHAPES) if vkind in ("batch", "param") else []
+    vkind = rng.choice(["pyfloat", "np64", "t0d", "t0d", "batch", "batch", "batch", "param", "np1d", "np0d", "pylist"]
+                       + (["pyint"] if allow_int else []))
+    # python numbers / lists are converted with the process-wide default dtype
+    dtype = (dd or "float32") if vkind in ("pyfloat", "pyint", "pylist") else ("float64" if vkind == "np64" else rng.choice(["float64", "float32"]))
+    shape = rng.choice(SHAPES) if vkind in ("batch", "param") else ([rng.choice([1, 2, 3, 5])] if vkind in ("np1d", "pylist") else [])
     if vkind == "param" and rng.random() < 0.3:
         shape = []
     return {"vkind": vkind, "dtype": dtype, "shape": shape, "grad": rng.choice(GRADS) if vkind in ("t0d", "batch") else "plain"}
@@ -510,7 +530,8 @@ def grad_ctx(mode):
 def gen_rtb_case(ctx: Ctx, n_max, force=None, long=False):
     rng = ctx.rng
     varying = rng.random() < 0.35 and not force          # per-segment (after reset) kind / dtype / shape
-    seg = draw_segcfg(rng, allow_int=not varying)
+    dd = "float64" if rng.random() < 0.25 else None       # torch.set_default_dtype(float64) around the whole history
+    seg = draw_segcfg(rng, allow_int=not varying, dd=dd)
     if force:
         seg["vkind"] = force
     d = rng.choice(D_CHOICES)
@@ -525,30 +546,34 @@ def gen_rtb_case(ctx: Ctx, n_max, force=None, long=False):
         tol = RTB_DEFAULTS["tol"]
     D, TOL = U.rnd(d, seg["dtype"]), U.rnd(tol, seg["dtype"])
     if seg["vkind"] == "pyint":
-        D, TOL = U.rnd(rng.choice([0.5, 1.0, 0.25, 1e-3, 0.0]), "float32"), U.rnd(rng.choice([1e-5, 1.0, 3.0, -1.0]), "float32")
+        D, TOL = U.rnd(rng.choice([0.5, 1.0, 0.25, 1e-3, 0.0]), seg["dtype"]), U.rnd(rng.choice([1e-5, 1.0, 3.0, -1.0]), seg["dtype"])
         d, tol = D, TOL
-    steps = rng.choice([1, 2, 3, 4, 5, 6, 8, 10, 15, 30, 200, 0, 10 ** 9, 2 ** 40])
-    patience = rng.choice([1, 2, 2, 3, 3, 4, 5, 5, 6, 0, 10 ** 6])
+    steps = rng.choice([1, 2, 3, 4, 5, 6, 8, 10, 15, 30, 200, 0, -3, 10 ** 9, 2 ** 40])
+    patience = rng.choice([1, 2, 2, 3, 3, 4, 5, 5, 6, 0, -1, 10 ** 6])
     if force_default["patience"]:
         patience = RTB_DEFAULTS["patience"]
     if long:
         steps, patience = rng.choice([10 ** 9, 2 ** 40, n_max - 3]), rng.choice([10 ** 6, 130, 257, n_max // 2])
     n = rng.randint(n_max // 2, n_max) if long else rng.randint(1, n_max)
     p_reset = 0.004 if long else (rng.choice([0.05, 0.12, 0.2]) if varying else rng.choice([0.0, 0.04, 0.12]))
-    reuse = rng.random() < 0.12 and not long                 # losses delivered through one in-place updated buffer
+    # losses delivered through ONE in-place updated buffer (a tensor, a from_numpy tensor, a numpy array, a list)
+    reuse = rng.choice(["reuse", "reuse_np"]) if (rng.random() < (0.5 if seg["vkind"] in ("np1d", "np0d", "pylist") else 0.15)
+                                                  and not long) else None
     itemwise = rng.random() < 0.2 and not long
     extreme = rng.random() < 0.15
     events, last, skipped = [], None, 0
     coordinated = rng.random() < 0.5
     first_seg = dict(seg)
-    B = int(math.prod(seg["shape"])) if seg["vkind"] in ("batch", "param") and seg["shape"] else 1
+    B = int(math.prod(seg["shape"])) if seg["vkind"] in ("batch", "param", "np1d", "pylist") and seg["shape"] else 1
     if seg["shape"] == [0]:
         B = 0
     for _ in range(n):
         if events and rng.random() < p_reset:
             if varying and rng.random() < 0.7:
-                seg = draw_segcfg(rng, allow_int=False)
+                seg = draw_segcfg(rng, allow_int=False, dd=dd)
                 B = int(math.prod(seg["shape"])) if seg["shape"] else 1
+                if reuse and seg["vkind"] in ("t0d", "batch", "np1d", "np0d", "pylist"):
+                    reuse = rng.choice(["reuse", "reuse_np"])
                 if seg["shape"] == [0]:
                     B = 0
                 events.append(["R", dict(seg)])
@@ -584,15 +609,20 @@ def gen_rtb_case(ctx: Ctx, n_max, force=None, long=False):
             if not amb:
                 break
             skipped += 1
-        layout = "reuse" if (reuse and seg["vkind"] in ("t0d", "batch") and seg.get("grad") in (None, "plain", "no_grad")) \
-            else rng.choice(LAYOUTS)
+        if reuse and seg["vkind"] in ("t0d", "batch") and seg.get("grad") in (None, "plain", "no_grad"):
+            layout = reuse
+        elif reuse and seg["vkind"] in ("np1d", "np0d", "pylist"):
+            layout = "reuse"
+        else:
+            layout = rng.choice(LAYOUTS)
         events.append(["S", vals, layout])
         last = vals
     ctx.count("num.rtb.regenerated_near_threshold", skipped)
     return {"kind": "num.rtb", "steps": steps, "patience": patience, "d": d, "tol": tol, "D": D, "TOL": TOL,
             "vkind": first_seg["vkind"], "dtype": first_seg["dtype"], "shape": first_seg["shape"],
             "grad": first_seg.get("grad", "plain"), "itemwise": itemwise,
-            "verbose": rng.random() < 0.5, "style": style, "events": events}
+            "verbose": rng.random() < 0.5, "style": style, "klass": rng.choice(KLASSES), "default_dtype": dd,
+            "events": events}
 
 
 class LossFeeder:
@@ -612,7 +642,34 @@ class LossFeeder:
             return np.float64(vals[0])
         if vk == "pyint":
             return int(vals[0])
+        if vk in ("np1d", "np0d", "pylist"):
+            # non-torch containers that share memory with the caller: a numpy array (1-d / 0-d) or a python list, either a
+            # fresh object per step or ONE object refilled in place between the steps
+            import numpy as np
+            npd = U.NP[self.seg["dtype"]]
+            if layout in ("reuse", "reuse_np") and self.buf is not None:
+                if vk == "pylist":
+                    self.buf[:] = [float(v) for v in vals]
+                elif vk == "np0d":
+                    self.buf[()] = vals[0]
+                else:
+                    self.buf[...] = np.array(vals, dtype=npd)
+                return self.buf
+            obj = [float(v) for v in vals] if vk == "pylist" else (np.array(vals[0], dtype=npd) if vk == "np0d"
+                                                                  else np.array(vals, dtype=npd))
+            if layout in ("reuse", "reuse_np"):
+                self.buf = obj
+            else:
+                self.kept.append((obj, list(obj) if vk == "pylist" else obj.copy(), None))
+            return obj
         t = torch.tensor(vals, dtype=dt).reshape(shape if vk in ("batch", "param") else ())
+        if layout == "reuse_np" and vk in ("t0d", "batch"):
+            # a tensor created by torch.from_numpy on a numpy buffer the caller refills in place
+            import numpy as np
+            if self.buf is None:
+                self.buf = np.zeros(t.shape, dtype=U.NP[self.seg["dtype"]])
+            self.buf[...] = t.numpy()
+            return torch.from_numpy(self.buf) if self.buf.ndim else torch.from_numpy(self.buf.reshape(1)).reshape(())
         if vk == "param":
             return torch.nn.Parameter(t)
         if self.seg.get("grad") == "requires_grad" and layout != "reuse":
@@ -651,6 +708,11 @@ class LossFeeder:
     def impure(self):
         """first tensor handed out earlier that no longer holds its values (or whose surrounding storage changed)"""
         for i, (v, want, guard) in enumerate(self.kept):
+            if not torch.is_tensor(v):
+                import numpy as np
+                if (v != want) if isinstance(v, list) else not np.array_equal(v, want, equal_nan=True):
+                    return f"loss object #{i} ({type(v).__name__}) handed to step() was modified"
+                continue
             if v.shape != want.shape or not torch.equal(v, want):
                 return f"loss tensor #{i} handed to step() was modified: {U.flat(v)[:4]} != {U.flat(want)[:4]}"
             if guard is not None and not torch.equal(guard[0], guard[1]):
@@ -679,7 +741,17 @@ def spec_trace_segment(kind, steps, patience, obs, pc0=0):
 
 
 def check_rtb_num(ctx: Ctx, case, model_reply=None) -> bool:
-    """run one numeric ReduceToBason history on the real code; oracles; returns True when everything held"""
+    """run one numeric ReduceToBason history on the real code (under the case's process-wide default dtype)"""
+    old = torch.get_default_dtype()
+    try:
+        if case.get("default_dtype"):
+            torch.set_default_dtype(U.TD[case["default_dtype"]])
+        return _check_rtb_num(ctx, case, model_reply)
+    finally:
+        torch.set_default_dtype(old)
+
+
+def _check_rtb_num(ctx: Ctx, case, model_reply=None) -> bool:
     ok = True
     try:
         st = new_rtb(case)
@@ -702,7 +774,8 @@ def check_rtb_num(ctx: Ctx, case, model_reply=None) -> bool:
         try:
             if ev[0] == "R":
                 pc_before = st.patience_count
-                st.reset()
+                with grad_ctx((ev[1] if len(ev) > 1 and ev[1] else seg).get("grad")):   # reset() in the mode of the next run
+                    st.reset()
                 code = U.ctl_code(st)
                 s_, pc_, c_ = U.st_decode(code)
                 last_ok = torch.is_tensor(st.last) and bool(torch.isinf(st.last).all()) and bool((st.last > 0).all())
@@ -730,7 +803,7 @@ def check_rtb_num(ctx: Ctx, case, model_reply=None) -> bool:
                         st.step(loss=feeder.make(ev[1], layout))
                 code = U.ctl_code(st)
                 nd, bl, _ = U.rtb_obs_exact(last, ev[1], D, TOL, dtype)
-                aliased = layout == "reuse" and prev_layout == "reuse"
+                aliased = layout in ("reuse", "reuse_np") and prev_layout in ("reuse", "reuse_np")
                 and_, _, _ = U.rtb_obs_exact(ev[1] if aliased else last, ev[1], D, TOL, dtype)
                 segs[-1]["obs"].append((nd, bl, False))
                 segs[-1]["alias_obs"].append((and_, bl, False))
@@ -740,6 +813,12 @@ def check_rtb_num(ctx: Ctx, case, model_reply=None) -> bool:
                 got_last = U.flat(st.last)
                 if got_last != [float(v) for v in ev[1]]:
                     ctx.fail(dict(case, event=ei), f"last: after step(loss) stepper.last={got_last[:4]} loss={ev[1][:4]}")
+                    ok = False
+                want_dt = torch.int64 if seg["vkind"] == "pyint" else U.TD[seg["dtype"]]
+                want_sh = tuple(seg["shape"]) if seg["vkind"] in ("batch", "param", "np1d", "pylist") else ()
+                if st.last.dtype != want_dt or tuple(st.last.shape) != want_sh:
+                    ctx.fail(dict(case, event=ei), f"metadata: stepper.last is {st.last.dtype} {tuple(st.last.shape)} after a "
+                                                   f"{seg['vkind']} loss of {want_dt} {want_sh} (default dtype {torch.get_default_dtype()})")
                     ok = False
                 if case.get("itemwise") and seg["vkind"] == "batch" and seg["shape"] != [0]:
                     ok = itemwise_oracle(ctx, dict(case, event=ei), seg, ev[1], last, (nd, bl), singles,
@@ -866,8 +945,8 @@ def gen_sop_case(ctx: Ctx, n_max):
         d = RTB_DEFAULTS["d"]
     D = U.rnd(d, dtype)
     has_reject = rng.random() < 0.7
-    steps = rng.choice([1, 2, 3, 4, 5, 6, 8, 10, 15, 30, 100, 0, 10 ** 9])
-    patience = rng.choice([1, 2, 2, 3, 3, 4, 5, 6, 0, 10 ** 6])
+    steps = rng.choice([1, 2, 3, 4, 5, 6, 8, 10, 15, 30, 100, 0, -3, 10 ** 9])
+    patience = rng.choice([1, 2, 2, 3, 3, 4, 5, 6, 0, -1, 10 ** 6])
     if style == "omit" and rng.random() < 0.6:
         patience = RTB_DEFAULTS["patience"]
     n = rng.randint(1, n_max)
@@ -909,7 +988,7 @@ def gen_sop_case(ctx: Ctx, n_max):
             "probe_at": rng.choice([None, None, 0, rng.randrange(n)]),
             # verbose printing divides python floats ((last-loss)/(last+1e-31)): real optimizers hand tensors, so the
             # verbose flag is exercised with tensor readings only
-            "verbose": vkind != "pyfloat" and rng.random() < 0.6, "style": style,
+            "verbose": vkind != "pyfloat" and rng.random() < 0.6, "style": style, "klass": rng.choice(KLASSES),
             "script": script}
 
 
@@ -1271,6 +1350,111 @@ def json_key(o):
     return json.dumps(o, sort_keys=True)
 
 
+# ----------------------------------------------------------------------------- large batches (class 19)
+
+def check_big(ctx: Ctx, case) -> bool:
+    nthreads = torch.get_num_threads()
+    torch.set_num_threads(1)   # intra-op threads on a loaded machine make 10^5-element ops 100x slower
+    try:
+        return _check_big(ctx, case)
+    finally:
+        torch.set_num_threads(nthreads)
+
+
+def _check_big(ctx: Ctx, case) -> bool:
+    """batches of 2^k, 2^k +- 1 elements (up to > 2^16): the batched decision must be the conjunction of the decisions on
+    the two halves of every split and on single items (first / last / random), and follow the documented causes; all
+    values are dyadic so numpy's float arithmetic is exact. One element (first / last / random position) differs."""
+    import numpy as np
+    N, shape, dtype, j = case["N"], case["shape"], case["dtype"], case["special"]
+    npd, dt = U.NP[dtype], U.TD[dtype]
+    d, tol = 0.5, 2.0 ** -12
+    cfgs = dict(steps=case["steps"], patience=case["patience"], d=d, tol=tol, verbose=False, style="kw", klass=case.get("klass"))
+    rows, x = [], np.ldexp(1.0, -(np.arange(N) % 5)).astype(npd)
+    for t, mode in enumerate(case["modes"]):
+        y = x / 4                                   # every element decreases by 3x its new value ...
+        if mode == "plateau_one":
+            y[j] = x[j]                             # ... except ONE that does not move
+        elif mode == "plateau_all":
+            y = x.copy()
+        elif mode == "plateau_all_but_one":
+            y = x.copy()
+            y[j] = x[j] / 4
+        elif mode == "below_all_but_one":
+            y = np.full(N, tol / 2, dtype=npd)
+            y[j] = 1.0
+        elif mode == "below_all":
+            y = np.full(N, tol / 2, dtype=npd)
+        rows.append(y.astype(npd))
+        x = rows[-1]
+    big = new_rtb(cfgs)
+    cuts = [1, N // 2, N - 1]
+    halves = [(new_rtb(dict(cfgs, steps=10 ** 9, patience=10 ** 9)), new_rtb(dict(cfgs, steps=10 ** 9, patience=10 ** 9)), a) for a in cuts]
+    items = [(new_rtb(dict(cfgs, steps=10 ** 9, patience=10 ** 9)), i) for i in sorted({0, N - 1, j, case["probe"]})]
+    obs, last, ok = [], None, True
+    for t, y in enumerate(rows):
+        with np.errstate(all="ignore"):
+            nd = bool(np.all((last - y) / y < npd(d))) if last is not None else bool(np.all(y < 0))
+            bl = bool(np.all(y < npd(tol)))
+        obs.append((nd, bl, False))
+        pc0 = big.patience_count
+        try:
+            big.step(torch.from_numpy(y.copy()).reshape(shape))
+            parts = []
+            for ha, hb, a in halves:
+                pa, pb = ha.patience_count, hb.patience_count
+                ha.step(torch.from_numpy(y[:a].copy()))
+                hb.step(torch.from_numpy(y[a:].copy()))
+                parts.append((ha.patience_count == pa + 1 and hb.patience_count == pb + 1, a))
+            singles = []
+            for it, i in items:
+                pi = it.patience_count
+                it.step(torch.from_numpy(y[i:i + 1].copy()))
+                singles.append((it.patience_count == pi + 1, i))
+        except Exception as e:
+            ctx.fail(dict(case, step=t), f"raises: step on a batch of {N} elements raised {type(e).__name__}: {str(e)[:100]}")
+            return False
+        inc = big.patience_count == pc0 + 1
+        want = spec_trace_segment("rtb", case["steps"], case["patience"], obs, 0)[-1]
+        if (big.continual(), big.patience_count) != want or big.steps != t + 1:
+            ctx.fail(dict(case, step=t), f"continual: batch of {N} ({shape}), step {t + 1} ({case['modes'][t]}, special element {j}): "
+                                         f"(continual, patience_count)={(big.continual(), big.patience_count)}, documented causes "
+                                         f"give {want}")
+            ok = False
+            break
+        for both, a in parts:
+            if inc != both:
+                ctx.fail(dict(case, step=t), f"split: batch of {N}: counted a non-decrease={inc}, but the halves [:{a}] and [{a}:] "
+                                             f"fed separately say {both} (step {t + 1}, {case['modes'][t]}, special element {j})")
+                ok = False
+        if inc and not all(sg for sg, _ in singles):
+            ctx.fail(dict(case, step=t), f"split: batch of {N} counted a non-decrease although single items "
+                                         f"{[i for sg, i in singles if not sg]} fed alone did not")
+            ok = False
+        last = y
+    return ok
+
+
+def gen_big_case(ctx: Ctx, N=None):
+    rng = ctx.rng
+    N = N or rng.choice([2 ** k + e for k in (10, 12, 14, 15, 16) for e in (-1, 0, 1)])
+    shapes = [[N]] + [[a, N // a] for a in (2, 3, 5, 7, 113, 257) if N % a == 0] + [[1, N], [N, 1]]
+    modes = ["dec", "plateau_one", "plateau_all", "plateau_all_but_one", "below_all_but_one", "below_all"]
+    return {"kind": "big", "N": N, "shape": rng.choice(shapes), "dtype": rng.choice(["float64", "float32"]),
+            "special": rng.choice([0, N - 1, N - 1, rng.randrange(N)]), "probe": rng.randrange(N),
+            "steps": rng.choice([4, 9]), "patience": rng.choice([1, 2]), "klass": rng.choice(KLASSES),
+            "modes": [rng.choice(modes) for _ in range(5)]}
+
+
+def run_big(ctx: Ctx, sizes):
+    for N in sizes:
+        c = gen_big_case(ctx, N)
+        guarded(ctx, c, check_big, ctx, c)
+        ctx.note_case(("big", c["N"], tuple(c["shape"]), c["dtype"], c["special"], tuple(c["modes"])), True)
+        ctx.count("big.cases")
+        ctx.count("big.elements", c["N"])
+
+
 # ----------------------------------------------------------------------------- several controllers alive at once
 
 class RtbPlayer:
@@ -1460,7 +1644,7 @@ def gen_copies_case(ctx: Ctx, n_max=12):
         alt = gen_rtb_case(ctx, n_max)
         for c in (base, alt):        # one kind/dtype/shape for both continuations (the copy shares `last`)
             cut = next((i for i, e in enumerate(c["events"]) if e[0] == "R"), len(c["events"]))
-            c["events"] = [e for e in c["events"][:cut] if e[2] != "reuse"]
+            c["events"] = [e for e in c["events"][:cut] if e[2] not in ("reuse", "reuse_np")]
         alt = dict(alt, **{k: base[k] for k in ("steps", "patience", "d", "tol", "D", "TOL", "vkind", "dtype", "shape", "grad",
                                                "verbose", "style")})
         B = int(math.prod(base["shape"])) if base["vkind"] == "batch" else 1
@@ -1646,12 +1830,15 @@ def real_problem(case):
 
 def make_real_opt(case, net):
     P = pp()
+    GN, LM = P.optim.GN, P.optim.LM
+    if case.get("klass", "lib") != "lib":        # user subclasses of the shipped optimizers
+        GN, LM = type("UserGN", (GN,), {}), type("UserLM", (LM,), {})
     if case["opt"] == "GN":
-        return P.optim.GN(net)
+        return GN(net)
     strat = {"constant": lambda: P.optim.strategy.Constant(damping=case["damping"]),
              "adaptive": lambda: P.optim.strategy.Adaptive(damping=case["damping"]),
              "trust": lambda: P.optim.strategy.TrustRegion(radius=case["damping"] * 1e3 + 1e-3)}[case["strategy"]]()
-    return P.optim.LM(net, strategy=strat, reject=case["reject"])
+    return LM(net, strategy=strat, reject=case["reject"])
 
 
 def check_opt_real(ctx: Ctx, case):
@@ -1713,7 +1900,7 @@ def gen_opt_real_case(ctx: Ctx):
             "steps": rng.choice([1, 2, 3, 4, 6, 9]), "patience": rng.choice([1, 2, 3]),
             "d": rng.choice([1e-3, 1.0, 0.0, 1e-8]), "dtype": "float64" if prob == "rosenbrock" else rng.choice(["float64", "float32"]),
             "x0": [rng.choice([-1.2, 0.5, 2.0, -3.0]), rng.choice([1.0, -1.0, 4.0])], "data_seed": rng.randrange(1 << 30),
-            "verbose": rng.random() < 0.5, "style": rng.choice(["kw", "pos", "omit"])}
+            "verbose": rng.random() < 0.5, "style": rng.choice(["kw", "pos", "omit"]), "klass": rng.choice(KLASSES)}
 
 
 def run_drv_optimize_real(ctx: Ctx, n_cases):
@@ -1799,7 +1986,7 @@ def gen_mpc_case(ctx: Ctx):
     steps = rng.choice([1, 2, 2, 3, 4, 5, 6, 8, 10])
     return {"kind": "drv.mpc", "steps": steps, "patience": rng.choice([1, 2, 2, 3, 5]),
             "d": rng.choice([1e-3, 0.5, 1.0, 0.0]), "tol": rng.choice([1e-5, -1e9, -1e9, 1.0]),
-            "k_inits": rng.choice([1, 1, 1, 2, 3]), "real_lqr": False, "verbose": rng.random() < 0.5,
+            "k_inits": rng.choice([1, 1, 1, 2, 3]), "real_lqr": False, "verbose": rng.random() < 0.5, "klass": rng.choice(KLASSES),
             "style": rng.choice(["kw", "pos", "omit"]),
             "calls": mpc_calls(rng)}
 
@@ -1985,7 +2172,7 @@ def _gen_icp_case(ctx: Ctx):
     return {"kind": "drv.icp", "steps": rng.choice([1, 2, 3, 4, 5, 6, 8]), "patience": rng.choice([1, 2, 2, 3, 4]),
             "d": U.rnd(rng.choice([1e-3, 0.5, 1.0]), "float32"), "tol": U.rnd(rng.choice([1e-5, 1e-5, 2.0 ** -10, -1.0]), "float32"),
             "batch": rng.choice([[], [1], [2], [3]]), "dtype": rng.choice(["float32", "float64"]),
-            "module_init": rng.random() < 0.4, "verbose": rng.random() < 0.5,
+            "module_init": rng.random() < 0.4, "verbose": rng.random() < 0.5, "klass": rng.choice(KLASSES),
             "style": rng.choice(["kw", "pos", "omit"]),
             "scripted": rng.random() < 0.75, "data_seed": rng.randrange(1 << 30),
             "calls": icp_calls(rng, call)}
@@ -2162,6 +2349,15 @@ def corpus_cases():
         # D34 (repaired): halving losses delivered through ONE buffer updated in place
         _rtb(20, 2, 1e-3, 1e-9, "t0d", "float32", [], halving),
         _rtb(20, 2, 1e-3, 1e-9, "batch", "float64", [2], [S([2.0 ** -k, 3.0 * 2.0 ** -k], "reuse") for k in range(8)]),
+        # the same through non-torch containers that share memory with the caller: numpy 1-d / 0-d buffers refilled in place,
+        # a python list mutated in place, tensors made by torch.from_numpy on a refilled buffer
+        _rtb(20, 2, 1e-3, 1e-9, "np1d", "float64", [2], [S([2.0 ** -k, 3.0 * 2.0 ** -k], "reuse") for k in range(8)]),
+        _rtb(20, 2, 1e-3, 1e-9, "np1d", "float32", [1], [S([2.0 ** -k], "reuse") for k in range(8)]),
+        _rtb(20, 2, 1e-3, 1e-9, "np0d", "float64", [], [S([2.0 ** -k], "reuse") for k in range(8)]),
+        _rtb(20, 2, 1e-3, 1e-9, "pylist", "float32", [3], [S([2.0 ** -k, 3.0 * 2.0 ** -k, 1.0], "reuse") for k in range(8)]),
+        _rtb(20, 2, 1e-3, 1e-9, "batch", "float64", [2], [S([2.0 ** -k, 3.0 * 2.0 ** -k], "reuse_np") for k in range(8)]),
+        _rtb(20, 2, 1e-3, 1e-9, "t0d", "float32", [], [S([2.0 ** -k], "reuse_np") for k in range(8)]),
+        _rtb(20, 2, 1e-3, 1e-9, "np1d", "float64", [2], [S([2.0 ** -k, 3.0 * 2.0 ** -k], "fresh") for k in range(8)]),
         # boundaries: ratio == decreasing exactly, loss == tol exactly, zero loss, one element decides
         _rtb(9, 2, 1.0, 0.5, "batch", "float32", [2], [S([8.0, 8.0]), S([4.0, 8.0]), S([2.0, 4.0], "slice"), S([1.5, 3.0], "strided"),
                                                       S([0.5, 0.25]), S([0.25, 0.25], "expanded"), S([0.0, 0.25]), S([0.0, 0.0])], True),
@@ -2191,12 +2387,37 @@ def corpus_cases():
         _rtb(30, 2, 0.5, -1.0, "batch", "float64", [3, 3], [S([8.0] * 9), S([8.0] * 8 + [4.0]), S([8.0] * 8 + [2.0]),
                                                            S([8.0] * 9), S([8.0] * 4 + [1.0] + [8.0] * 4), S([8.0] * 9)], True),
         _rtb(30, 2, 0.5, 1.0, "batch", "float64", [7], [S([0.25] * 3 + [2.0] + [0.25] * 3), S([0.25] * 7), S([0.25] * 7)], True),
+        # exact ties of two data-dependent quantities: relative decrease EXACTLY equal to `decreasing` (not a non-decrease:
+        # the test is strict), loss EXACTLY equal to tol (not below), equal consecutive losses with decreasing = 0
+        _rtb(40, 2, 0.25, 0.5, "t0d", "float64", [], [S([2.44140625]), S([1.953125]), S([1.5625]), S([1.25]), S([1.0]), S([1.0]),
+                                                     S([0.5]), S([0.5]), S([0.4])]),
+        _rtb(40, 2, 3.0, 1.0, "batch", "float32", [2], [S([64.0, 64.0]), S([16.0, 16.0]), S([4.0, 4.0]), S([1.0, 4.0]), S([1.0, 1.0]),
+                                                       S([1.0, 1.0])]),
+        _rtb(40, 2, 0.0, -1.0, "pyfloat", "float32", [], [S([4.0]), S([4.0]), S([4.0]), S([4.5]), S([5.0])]),
+        _rtb(40, 2, -0.5, -1.0, "t0d", "float64", [], [S([1.0]), S([2.0]), S([4.0]), S([8.0]), S([17.0]), S([35.0])]),
         # long history: counters beyond 256, patience 257 reached exactly at step 258, budget 290
         _rtb(290, 257, 1e-3, 1e-9, "t0d", "float32", [], plateau),
     ]
 
 
 CORPUS = corpus_cases()
+
+
+def corpus_sop_cases():
+    """StopOnPlateau ties: last - loss EXACTLY equal to `decreasing` (strict test: a decrease), equal losses with
+    decreasing 0, negative `decreasing`, patience / budget reached exactly, single and repeated rejections"""
+    out = []
+    for vk, dt in (("pyfloat", "float64"), ("t0d", "float64"), ("t0d", "float32")):
+        for d, script in ((0.125, [[8.0, 7.875, 0], [7.875, 7.75, 0], [7.75, 7.6875, 0], [7.6875, 7.6875, 0], [7.6875, 7.5625, 0],
+                                   [7.5625, 7.5, 0], [7.5, 7.5, 0], [7.5, 7.5, 0]]),
+                          (0.0, [[4.0, 4.0, 0], [4.0, 4.0, 0], [4.0, 4.5, 0], [4.5, 5.0, 0], [5.0, 5.0, 0]]),
+                          (-0.5, [[4.0, 4.5, 0], [4.5, 5.0, 0], [5.0, 6.0, 0], [6.0, 7.0, 0], [7.0, 7.0, 0]]),
+                          (1.0, [[9.0, 8.0, 1], [8.0, 8.0, 0]]), (1.0, [[9.0, 8.0, 0], [8.0, 7.0, 2], [7.0, 6.0, 0]])):
+            for steps, pat in ((30, 2), (5, 3), (3, 1)):
+                out.append({"kind": "num.sop", "steps": steps, "patience": pat, "d": d, "D": U.rnd(d, dt), "vkind": vk, "dtype": dt,
+                            "has_reject": True, "layout": "fresh", "verbose": False, "style": "kw", "klass": "lib",
+                            "script": [list(r) for r in script]})
+    return out
 
 
 def corpus_drivers():
@@ -2216,11 +2437,14 @@ def corpus_drivers():
 def run_corpus(ctx: Ctx):
     """runs first and does not depend on VERIF_SEED: hand-written corners + every stream with a fixed generator"""
     import random
-    cases = [dict(c, verbose=v, style=st) for c in CORPUS for v, st in ((False, "kw"), (True, "pos"))]
+    cases = [dict(c, verbose=v, style=st, klass=kl) for c in CORPUS for v, st, kl in ((False, "kw", "lib"), (True, "pos", "sub_step"))]
     reps = ctx.driver.run([rtb_num_line(c) for c in cases])
     for i, (c, rep) in enumerate(zip(cases, reps)):
         guarded(ctx, c, check_rtb_num, ctx, c, rep)
         ctx.note_case(("corpus", i), True)
+    scases = corpus_sop_cases()
+    for c, rep in zip(scases, ctx.driver.run([sop_num_line(c) for c in scases])):
+        guarded(ctx, c, check_sop_num, ctx, c, rep)
     mpcs, icps = corpus_drivers()
     mpcs = [dict(c, verbose=v) for c in mpcs for v in (False, True)]
     icps = [dict(c, verbose=v) for c in icps for v in (False, True)]
@@ -2261,16 +2485,25 @@ def run_corpus(ctx: Ctx):
     saved = ctx.rng
     ctx.rng = random.Random(0xC20)
     try:
+        run_graph(ctx, "sop", core_configs()[::2] + [(3, 2), (2, 1), (5, 3), (1, 1)] * 2, 7)
+        run_graph(ctx, "rtb", core_configs()[1::4] + [(3, 2), (2, 1), (5, 3), (1, 1)] * 2, 6)
         run_trie(ctx, "sop", core_configs(), 4)
         run_trie(ctx, "rtb", core_configs()[::3], 3)
         run_num_rtb(ctx, 160, 40)
         run_num_rtb(ctx, 2, 420, long=True)
         run_num_sop(ctx, 120, 40)
+        run_big(ctx, [16385, 65537, 16384, 1025])
+        for N in (16385, 65537):        # the LAST / FIRST element alone decides
+            for sp in (N - 1, 0):
+                c = {"kind": "big", "N": N, "shape": [N], "dtype": "float64", "special": sp, "probe": N // 3, "steps": 9, "patience": 2,
+                     "klass": "lib", "modes": ["dec", "below_all_but_one", "plateau_all_but_one", "plateau_one", "plateau_all", "below_all"]}
+                guarded(ctx, c, check_big, ctx, c)
+                ctx.note_case(("big.corpus", N, sp), True)
         run_numx_rtb(ctx, 250)
         run_numx_sop(ctx, 150)
         run_defaults(ctx, 40)
         run_interleave(ctx, 30)
-        run_copies(ctx, 90)
+        run_copies(ctx, 60)
         run_drv_optimize(ctx, 120)
         run_drv_mpc(ctx, 60, 2)
         run_drv_icp(ctx, 25)
@@ -2304,18 +2537,18 @@ def _run(ctx: Ctx):
     q = ctx.quick
     run_corpus(ctx)
     core = core_configs()
-    extra = extra_configs(rng, 14 if q else 80)
+    extra = extra_configs(rng, 8 if q else 80)
     depth = 12 if q else 16
     run_graph(ctx, "sop", core + extra, depth)
     run_graph(ctx, "rtb", core + extra, depth)
     if q:
         sh = list(core)
         rng.shuffle(sh)
-        run_trie(ctx, "sop", sh[:12], 5)
-        run_trie(ctx, "sop", sh[12:], 4)
-        run_trie(ctx, "sop", rng.sample(core, 2), 6)
-        run_trie(ctx, "rtb", sh[:10], 4)
-        run_trie(ctx, "rtb", sh[10:], 3)
+        run_trie(ctx, "sop", sh[:8], 5)
+        run_trie(ctx, "sop", sh[8:], 4)
+        run_trie(ctx, "sop", rng.sample(core, 1), 6)
+        run_trie(ctx, "rtb", sh[:6], 4)
+        run_trie(ctx, "rtb", sh[6:], 3)
         run_trie(ctx, "rtb", rng.sample(core, 1), 5)
     else:
         sh = list(core)
@@ -2325,18 +2558,19 @@ def _run(ctx: Ctx):
         run_trie(ctx, "sop", rng.sample(core, 1), 8)
         run_trie(ctx, "rtb", core, 5)
         run_trie(ctx, "rtb", sh[:8], 6)
-    run_num_rtb(ctx, ctx.pick(400, 2500), 40 if q else 150)
+    run_num_rtb(ctx, ctx.pick(300, 2500), 40 if q else 150)
     run_num_rtb(ctx, ctx.pick(2, 12), 420 if q else 1500, long=True)
-    run_num_sop(ctx, ctx.pick(500, 2500), 40 if q else 150)
-    run_numx_rtb(ctx, ctx.pick(400, 4000))
+    run_num_sop(ctx, ctx.pick(350, 2500), 40 if q else 150)
+    run_big(ctx, [16385, 65537, 32769] if q else [2 ** k + e for k in (10, 12, 13, 14, 15, 16, 17) for e in (-1, 0, 1)])
+    run_numx_rtb(ctx, ctx.pick(300, 4000))
     run_numx_sop(ctx, ctx.pick(250, 2500))
     run_defaults(ctx, ctx.pick(40, 200))
     run_interleave(ctx, ctx.pick(60, 400))
     run_copies(ctx, ctx.pick(120, 800))
     run_drv_optimize(ctx, ctx.pick(400, 4000))
-    run_drv_optimize_real(ctx, ctx.pick(12, 200))
-    run_drv_mpc(ctx, ctx.pick(200, 2000), ctx.pick(12, 100))
-    run_drv_icp(ctx, ctx.pick(50, 500))
+    run_drv_optimize_real(ctx, ctx.pick(8, 200))
+    run_drv_mpc(ctx, ctx.pick(150, 2000), ctx.pick(8, 100))
+    run_drv_icp(ctx, ctx.pick(35, 500))
 
 
 def search(ctx: Ctx):
@@ -2378,10 +2612,13 @@ def _replay_case(ctx: Ctx, c, kind) -> bool:
             ctl = new_rtb(dict(c, d=1.0, tol=1.0))
         s_, pc_, cont_ = U.st_decode(c["before"])
         ctl.steps, ctl.patience_count, ctl._continual = s_, pc_, cont_
+        if c.get("offset"):
+            ctl.max_steps, ctl.patience = c["offset"] + c["steps"], c["offset"] - 1 + c["patience"]
         pairs, info = [], []
         graph_transition(ctx, ctl, c, pairs, info, opt)
         if pairs:
-            rep = ctx.driver.run([f"c20.steps {ck} {c['steps']} {c['patience']} {pairs[0][0]} {pairs[0][1]}"])[0]
+            eff = (c["offset"] + c["steps"], c["offset"] - 1 + c["patience"]) if c.get("offset") else (c["steps"], c["patience"])
+            rep = ctx.driver.run([f"c20.steps {ck} {eff[0]} {eff[1]} {pairs[0][0]} {pairs[0][1]}"])[0]
             w = int(common.parse_reply(rep)[1][0])
             if w != info[0][2]:
                 ctx.disagree("graph", c, "model != implementation")
@@ -2397,6 +2634,8 @@ def _replay_case(ctx: Ctx, c, kind) -> bool:
         check_sopx(ctx, c, ctx.driver.run([sopx_line(c)])[0])
     elif kind == "defaults":
         pass
+    elif kind == "big":
+        check_big(ctx, c)
     elif kind == "interleave":
         check_interleave(ctx, c)
     elif kind == "copies":
